@@ -465,6 +465,47 @@ def r25_9(ctx, rep):
     no_stale_loop_variables(ctx, rep, "R25.9", XML, "the XML generator")
 
 
+@SPEC.rule(
+    "R25.10",
+    "names reach the document as they are in the flat model: every `name=` an XmlGenerator handler puts on an element is the node's own name "
+    "(an attribute of the node being rendered), a literal, or a loop variable over literals — never the result of a call or of string "
+    "arithmetic (an escape borrowed from the Python-emitting backend turns the variable `psi` into `psi_`: XML has no reserved names)",
+)
+def r25_10(ctx, rep):
+    from ..pyutil import inlined
+    R = "R25.10"
+    ms = ctx.methods(XML, CLS, R)
+    n = 0
+    for name, fn in sorted(ms.items()):
+        if not name.startswith(("exit", "enter")):
+            continue
+        site = "%s:%s.%s" % (XML, CLS, name)
+        for c in calls(fn):
+            if not is_name(c.func, "E"):
+                continue
+            for k in c.keywords:
+                if k.arg != "name":
+                    continue
+                n += 1
+                v = inlined(k.value, fn.body)
+                vals = [v]
+                if isinstance(v, ast.Name):
+                    # a local bound more than once (an escape loop `while name in RESERVED: name += "_"`): every value it is given counts
+                    vals += [st.value for st in ast.walk(fn) if isinstance(st, (ast.Assign, ast.AugAssign))
+                             and any(is_name(t, v.id) for t in (st.targets if isinstance(st, ast.Assign) else [st.target]))]
+                    vals += [st for st in ast.walk(fn) if isinstance(st, ast.AugAssign) and is_name(st.target, v.id)]
+                def alternatives(w):
+                    # which value a conditional expression chooses is decided by its test; the values are its two arms
+                    return alternatives(w.body) + alternatives(w.orelse) if isinstance(w, ast.IfExp) else [w]
+
+                vals = [a for w in vals for a in alternatives(w)]
+                computed = [x for w in vals for x in ast.walk(w) if isinstance(x, (ast.Call, ast.BinOp, ast.JoinedStr, ast.Subscript, ast.AugAssign))]
+                rep.ob(R, site, "name of <%s> is taken over unchanged" % (const_str(c.args[0]) if c.args else "?"), not computed,
+                       "the element's name is `%s`: the document names something the flat model does not contain" % norm(v)[:70])
+    if n < 5:
+        raise MechanismMissing(R, "fewer than 5 `name=` attributes found in XmlGenerator")
+
+
 # -- seeded variants ---------------------------------------------------------
 from ._mut import replace_in_func  # noqa: E402
 
